@@ -250,7 +250,7 @@ def run_container(P, pid, cspec, tier, seed):
         pm = [x for h in rnd[: max(20, len(rnd) // 2)] for x in (with_mode(h, "spool"), with_mode(h, "dpool")) if x]
         batches.append(("pool-backed", pm))
     if cspec.get("faults", False):
-        nb = cspec.get("fault_hist_quick", 12) if tier == "quick" else cspec.get("fault_hist_thorough", 150)
+        nb = cspec.get("fault_hist_quick", 25) if tier == "quick" else cspec.get("fault_hist_thorough", 150)
         base = g.random(rng, nb, tier, focus=focus or "fault")
         if hasattr(g, "fault_seeds"):
             base = g.fault_seeds(tier) + base
